@@ -173,6 +173,13 @@ func init() {
 			Trusted:     commonTrusted, Assumptions: commonAssumptions,
 		},
 		{
+			ID:          "C15",
+			Rules:       []RuleUse{use("R-OPTS", "v5"), use("R-INDENT", "v5"), {Rule: "R-COPYLIMIT", Bodies: []string{"v5"}, KeyHas: []string{"measured as spelled"}}, {Rule: "R-KEYS", Bodies: []string{"v5"}, KeyHas: []string{"emitter"}}, {Rule: "R-STALERAW", Bodies: []string{"v5"}}},
+			Explanation: "Decided for the v5 body: R-OPTS (every partialDoc that can reach the output carries the caller's options: all composite literals set opts; decoder-allocated documents get doc.opts before the node becomes eDoc, or the node is a scratch copy / has opts stored before it is published; the emitter passes opts.EscapeHTML — true only when opts is nil — to both of its encoder calls), R-INDENT (ApplyIndent hands Indent exactly the bytes Apply returns, produced by MarshalEscaped(document, options.EscapeHTML), with prefix \"\" and the caller's indent, and returns the buffer Indent wrote), R-COPYLIMIT(ii) (copies are re-encoded with the same encoder and flag as the output), R-KEYS emitter (name then obj[name], keys order), R-STALERAW (a passing test never re-parses or re-spells a document node: comparisons work on scratch copies).",
+			NotDecided:  "that an independent parser reads the output back as the intended value; UTF-8 validity; the escaping tables and the scanner-driven compaction themselves (R-ESCSET/R-TABLES/R-SCAN, added when built).",
+			Trusted:     commonTrusted, Assumptions: commonAssumptions,
+		},
+		{
 			ID:          "C16",
 			Rules:       []RuleUse{use("R-GATE", "v5", "codec")},
 			Explanation: "Decided: R-GATE (every public v5 entry point consults json.Valid on each []byte parameter before parsing; the invalid edge returns an error / false).",
